@@ -44,6 +44,7 @@ pub fn exec_oracle(kind: &str, fields: &[&str]) -> String {
         "S_C07T" => oracle_c07t(fields),
         "S_C18S" => oracle_c18s(fields),
         "S_C18F" => oracle_c18f(fields),
+        "S_C18P" => oracle_c18p(fields),
         "S_C19U" => oracle_c19u(fields),
         "S_C16E" => {
             let def = unescape(fields[0]);
@@ -1242,6 +1243,31 @@ fn oracle_c18f(fields: &[&str]) -> String {
         }
         if !same_bits(&run(ctx, before)[0], &from_file[0]) {
             return format!("oracle FAIL the handle of {name} made before the registration changed its behaviour");
+        }
+        "oracle pass".to_string()
+    })
+}
+
+/// a user-registered operator shadows a built-in of the same name also as a step of a pipeline
+fn oracle_c18p(fields: &[&str]) -> String {
+    let spec = crate::exec::CtxSpec { kind: fields[0].to_string(), resources: vec![], users: vec![] };
+    let name = unescape(fields[1]);
+    crate::exec::with_ctx(&spec, |ctx| {
+        ctx.register_op(&name, crate::exec::user_ctor("u:add2").unwrap());
+        // steps: (operator, inverted); built-in `addone` adds 1, `noop` nothing, the user operator 2
+        let shapes: Vec<Vec<(&str, bool)>> = vec![
+            vec![(name.as_str(), false)], vec![(name.as_str(), false), ("noop", false)], vec![("noop", false), (name.as_str(), false)],
+            vec![("addone", false), (name.as_str(), true)], vec![("noop", false), (name.as_str(), false), (name.as_str(), false)],
+        ];
+        for shape in shapes {
+            let def = shape.iter().map(|(n, inv)| if *inv { format!("{n} inv") } else { n.to_string() }).collect::<Vec<_>>().join(" | ");
+            let want: f64 = 10.0 + shape.iter().map(|(n, inv)| (if *n == name { 2.0 } else if *n == "addone" { 1.0 } else { 0.0 }) * if *inv { -1.0 } else { 1.0 }).sum::<f64>();
+            let Ok(op) = ctx.op(&def) else { return format!("oracle FAIL {:?} cannot be instantiated with {name} registered as a user operator", def) };
+            let mut d = vec![Coor4D([10., 0., 0., 0.])];
+            let _ = ctx.apply(op, Fwd, &mut d);
+            if d[0][0] != want {
+                return format!("oracle FAIL {:?}: the user-registered operator {name} (adds 2) is not what runs: x = 10 became {} instead of {want}", def, d[0][0]);
+            }
         }
         "oracle pass".to_string()
     })
@@ -2455,7 +2481,9 @@ fn oracle_c13(fields: &[&str]) -> String {
         for j in 0..2 {
             // the magnitudes that went through the arithmetic (a false northing of 1e7 m costs 2e-9 m per operation)
             let scale = want[j].abs().max(y[j].abs()).max(if j == 0 { fx.abs().max(ox.abs()) } else { fy.abs().max(oy.abs()) }).max(1.0) * 4.0;
-            let (rel, abs) = if kind == "close" { (1e-9, 1e-6) } else { (4e-15, 2e-9 * (scale / 1e6).max(1.0)) };
+            // (rounding: the operands reach 1e7 m inside the oblique projections, and a longitude of 3.5 rad
+            // shifted by the oracle itself is good to 4e-16 rad, a few nanometres on the ground: 10 nm)
+            let (rel, abs) = if kind == "close" { (1e-9, 1e-6) } else { (4e-15, 1e-8 * (scale / 1e6).max(1.0)) };
             if !close(x[j], want[j], rel, abs) {
                 return format!("oracle FAIL [{kind}] tuple {i} element {j}: {a} gives {}, expected {} from {b}", x[j], want[j]);
             }
@@ -2654,7 +2682,8 @@ fn ground_distance(space: &str, a: &Coor4D, b: &Coor4D) -> f64 {
             if dl > std::f64::consts::PI {
                 dl = std::f64::consts::TAU - dl;
             }
-            let dlon = dl * r * a[1].cos().abs().max(1e-9).min(1.0);
+            // (the radius of the parallel: at a pole the longitude means nothing)
+            let dlon = dl * r * a[1].cos().abs().min(1.0);
             let dh = if space == "geo3" { (a[2] - b[2]).abs() } else { 0.0 };
             dlat.max(dlon).max(dh)
         }
